@@ -248,6 +248,7 @@ class DocGen:
             ni = r.choice(['<w:numId w:val="1"/>', '<w:numId w:val="2"/>', '<w:numId w:val="0"/>', '<w:numId w:val="77"/>', '', '<w:numId w:val="3"/>', '<w:numId w:val="1"/>'])
             out += f'<w:numPr>{il}{ni}</w:numPr>'; self.c('numPr'); self.feat.add('list')
         if r.random() < 0.1: out += '<w:rPr><w:b/></w:rPr>'
+        elif r.random() < 0.12: out += '<w:rPr><w:ins w:id="8" w:author="a"/></w:rPr>'; self.feat.add('tracked_paragraph_mark')   # an EMPTY w:ins
         if r.random() < 0.05 and not self.p.get('no_r'): out += '<w:sectPr><w:headerReference w:type="default" r:id="rId30"/></w:sectPr>'
         return f'<w:pPr>{out}</w:pPr>' if out or r.random() < 0.1 else ''
 
@@ -414,6 +415,8 @@ def make_package(rng, prof=None, body=None):
         k = r.random()
         if k < 0.15 and ids: ids = ids[:-1]                 # fewer entries than ranges
         elif k < 0.25: ids = ids + [max(ids + [0]) + 1]     # more entries than ranges
+        if len(ids) >= 2 and r.random() < 0.4:
+            ids = ids[:]; r.shuffle(ids); g.feat.add('comments_part_order_differs')      # the part need not list comments in document order
         com = ''
         for i in ids:
             com += (f'<w:comment w:id="{i}" w:author="A{i}"' + r.choice(['', ' w:date="2020-01-01T00:00:00Z"', ' w:initials="X"']) + '>'
@@ -422,15 +425,18 @@ def make_package(rng, prof=None, body=None):
         pk.add('word/comments.xml', f'<w:comments {ns_decl()}>{com}</w:comments>'); dr.append(('rId4', 'comments', 'comments.xml'))
     extra_rels = {}
     if r.random() < prof['p_footnotes']:
-        fn = ('<w:footnote w:type="separator" w:id="-1"><w:p><w:r><w:separator/></w:r></w:p></w:footnote><w:footnote w:type="continuationSeparator" w:id="0"><w:p/></w:footnote>'
-              '<w:footnote w:id="2"' + r.choice(['', '', ' w:type="normal"']) + '>' + g.par() + (g.table(1) if r.random() < 0.4 else '') + g.par() + '</w:footnote>'
+        # producers other than Word number ordinary notes from 0 (or -1) and write no separator notes: "arbitrary ids"
+        nid = r.choice(['2', '2', '2', '0', '-1', '1', '40'])
+        seps = '' if nid in ('0', '-1') else '<w:footnote w:type="separator" w:id="-1"><w:p><w:r><w:separator/></w:r></w:p></w:footnote><w:footnote w:type="continuationSeparator" w:id="0"><w:p/></w:footnote>'
+        fn = (seps +
+              f'<w:footnote w:id="{nid}"' + r.choice(['', '', ' w:type="normal"']) + '>' + g.par() + (g.table(1) if r.random() < 0.4 else '') + g.par() + '</w:footnote>'
               + (('<w:footnote w:type="continuationNotice" w:id="12">' + g.par() + '</w:footnote>') if r.random() < 0.3 else '')
               # (an empty note is not schema-valid; it is kept as the LAST note, where its queued label cannot leak into another note)
               + r.choice(['<w:footnote w:id="3"/>', '<w:footnote w:id="3">' + g.par() + '</w:footnote>']))
         pk.add('word/footnotes.xml', f'<w:footnotes {ns_decl()}>{fn}</w:footnotes>'); dr.append(('rId5', 'footnotes', 'footnotes.xml'))
         extra_rels['word/_rels/footnotes.xml.rels'] = [('rId9', 'hyperlink', 'http://fn/', True), ('rId20', 'image', 'media/j.png')]
     if r.random() < prof['p_endnotes']:
-        pk.add('word/endnotes.xml', f'<w:endnotes {ns_decl()}><w:endnote w:id="9">' + g.par() + '</w:endnote>' + (('<w:endnote w:type="continuationNotice" w:id="10">' + g.par() + g.par() + '</w:endnote>') if r.random() < 0.3 else '') + '</w:endnotes>'); dr.append(('rId6', 'endnotes', 'endnotes.xml'))
+        pk.add('word/endnotes.xml', f'<w:endnotes {ns_decl()}><w:endnote w:id="' + r.choice(['9', '9', '0', '-1']) + '">' + g.par() + '</w:endnote>' + (('<w:endnote w:type="continuationNotice" w:id="10">' + g.par() + g.par() + '</w:endnote>') if r.random() < 0.3 else '') + '</w:endnotes>'); dr.append(('rId6', 'endnotes', 'endnotes.xml'))
     nh = 0
     while r.random() < prof['p_header'] and nh < 3:
         nh += 1
